@@ -165,7 +165,10 @@ def _session(ctx, case):
                 ctr = expected_ctr
                 expected_ctr = (expected_ctr + 1) & 0xFFF
             else:
-                ctr = r.randrange(4096)
+                # explicit counters on an object that has its own history: boundary values as often as random ones
+                ctr = r.choice(Q_COUNTERS) if i % 2 else r.randrange(4096)
+                if i % 3 == 0:
+                    proto.write(r.randbytes(3))       # the object's own running counter moves on in between
                 wire = proto._encode_encrypted_request(ctr, payload)
         except Exception as e:  # noqa: BLE001
             ctx.count(k, kind="session-enc-raised")
